@@ -1015,7 +1015,7 @@ func sequentialPart(c *vf.Ctx) {
 	c.Extra("exhaustive_bound", fmt.Sprintf("TypedValue: all histories of length <= %d over {Get, Has, Set, Delete, Compute(inc), Compute(NotChanged), Compute(fails)} x initial raw state {absent, present, undecodable} with the fixed-width codec, and the same plus Compute(const 0) and initial state present-with-zero-length-bytes under a variable-length codec (0 -> zero bytes, 1..255 -> one byte), each with every single fallible site failing", exhLen))
 
 	// (2) seeded histories (length 1..8) on TypedValue and TypedStore
-	n := c.Pick(20000, 120000)
+	n := c.Pick(20000, 1500000)
 	pairs := c.Pick(1, 3)
 	vf.Parallel((n+chunk-1)/chunk, workers, func(w int) {
 		rng := c.Rand(fmt.Sprintf("hist/%d", w))
@@ -1168,9 +1168,9 @@ func concurrentChild(c *vf.Ctx) {
 	enc, dec := plainCodec()
 
 	// (a) only Compute(+1): final value = number of calls
-	roundsA := c.Pick(300, 3000)
+	roundsA := c.Pick(300, 12000)
 	if race {
-		roundsA = c.Pick(80, 600)
+		roundsA = c.Pick(80, 2500)
 	}
 	for r := 0; r < roundsA; r++ {
 		g := 2 + rng.Intn(7)
@@ -1233,9 +1233,9 @@ func concurrentChild(c *vf.Ctx) {
 	c.Count("compute_only_rounds", roundsA)
 
 	// (b) mixed operations, porcupine register model
-	roundsB := c.Pick(2000, 20000)
+	roundsB := c.Pick(2000, 100000)
 	if race {
-		roundsB = c.Pick(400, 3000)
+		roundsB = c.Pick(400, 12000)
 	}
 	kinds := []string{"cinc", "cinc", "cinc", "set", "set", "del", "get", "get", "has", "cnc"}
 	for r := 0; r < roundsB; r++ {
